@@ -107,8 +107,17 @@ def gen_probe_op(rng, trs_pool=None):
         return {"p": "tractlist",
                 "texts": [corpus.gen_desc(rng) for _ in range(rng.randint(1, 2))],
                 "then": rng.choice(("sort_i", "dups", "group", "list_trs"))}
-    return {"p": "sort_i", "text": corpus.gen_desc(rng),
-            "scramble": rng.choice(("s.rev", "t.sn,r.ew", "s,r,t"))}
+    if r < 0.985:
+        return {"p": "sort_i", "text": corpus.gen_desc(rng),
+                "scramble": rng.choice(("s.rev", "t.sn,r.ew", "s,r,t"))}
+    if r < 0.993:
+        return {"p": "deduce", "text": corpus.gen_desc(rng),
+                "candidates": rng.choice((
+                    None, ["TRS_desc"], ["desc_STR", "S_desc_TR"],
+                    ["TR_desc_S", "TRS_desc"], ["copy_all"])),
+                "config": rng.choice((None, "ocr_scrub"))}
+    return {"p": "default_lists", "trs": rng.choice(trs_pool),
+            "text": corpus.gen_block(rng)}
 
 
 def _perturb(rng, op):
@@ -361,6 +370,20 @@ def _run_probe_op(pytrs, op, hooks=None):
         if then == "group":
             return enc(tl.group_by("twprge", sort_key="i")), tl
         return tl.list_trs(remove_duplicates=True), tl
+    if p == "deduce":
+        d = pytrs.PLSSDesc(op["text"], config=op["config"], wait_to_parse=True)
+        return [d.deduce_layout(candidates=op["candidates"]),
+                d.deduce_layout()], d
+    if p == "default_lists":
+        # containers built with their default arguments, then used
+        tl, sl = pytrs.TractList(), pytrs.TRSList()
+        before = [len(tl), len(sl)]
+        tl.append(pytrs.Tract(op["text"], trs=op["trs"]))
+        sl.append(op["trs"])
+        grouped = tl.group_by("twprge")
+        return [before, enc(tl), enc(sl), enc(grouped),
+                enc(pytrs.TractList.from_multiple(tl, [tl])),
+                enc(sl.filter_duplicates())], tl
     if p == "sort_i":
         d = pytrs.PLSSDesc(op["text"])
         d.sort_tracts(op["scramble"])
